@@ -72,7 +72,7 @@ func main() {
 			fmt.Fprintln(os.Stderr, err)
 			os.Exit(2)
 		}
-		for _, fn := range p.Fns {
+		for _, fn := range p.AllFns {
 			if p.isPlainHelper(fn) {
 				fmt.Printf("%s (%d call sites)\n", fname(fn), len(p.callers[fn]))
 			}
